@@ -36,7 +36,7 @@ LEAN_MODULES = {
     "C07": ["TFV.Properties.DE", "TFV.Properties.Runs", "TFV.Properties.Src.BoundsControl", "TFV.Properties.Src.Binomial", "TFV.Properties.Src.Donors", "TFV.Properties.Src.DETrial", "TFV.Properties.Src.Pbest"],
     "C08": ["TFV.Properties.Tree", "TFV.Properties.TreeCR", "TFV.Properties.Runs", "TFV.Properties.Src.Levels", "TFV.Properties.Src.Shrink", "TFV.Properties.Src.StandardX", "TFV.Properties.Src.OnePointGP", "TFV.Properties.Src.GrowMut", "TFV.Properties.Src.PointMut", "TFV.Properties.Src.Swap", "TFV.Properties.Src.Grow", "TFV.Properties.Src.GPTrial"],
     "C09": ["TFV.Properties.Tree", "TFV.Properties.TreeCR", "TFV.Properties.Src.TreeIdx", "TFV.Properties.Src.CommonRegion", "TFV.Properties.Src.TreeMethods",
-            "TFV.Properties.Src.StandardX", "TFV.Properties.Src.OnePointGP", "TFV.Properties.Src.TreeCall", "TFV.Properties.Src.TreeInit"],
+            "TFV.Properties.Src.StandardX", "TFV.Properties.Src.OnePointGP", "TFV.Properties.Src.TreeCall", "TFV.Properties.Src.TreeInit", "TFV.Properties.Src.TreeEq"],
     "C10": ["TFV.Properties.Gray", "TFV.Properties.Src.GrayKernels"],
     "C11": ["TFV.Properties.Select", "TFV.Properties.Src.Bsearch", "TFV.Properties.Src.Tournament", "TFV.Properties.Src.Sampling", "TFV.Properties.Src.MinMax"],
     "C12": ["TFV.Properties.Net"],
@@ -70,7 +70,7 @@ SRC_KERNELS = {
             "Tree_full_growing_method", "Tree_growing_method", "Tree_random_tree", "GP_get_new_individ_g"],
     "C09": ["find_end_subtree_from_i", "find_id_args_from_i", "find_first_difference_between_two", "common_region_two_trees",
             "Tree_subtree_id", "Tree_subtree", "Tree_concat", "get_levels_tree_from_i", "Tree_get_levels", "Tree_get_max_level",
-            "standard_crossover", "Tree_get_common_region", "one_point_crossoverGP", "Tree_call", "Tree_str", "Tree_init_n_args"],
+            "standard_crossover", "Tree_get_common_region", "one_point_crossoverGP", "Tree_call", "Tree_str", "Tree_init_n_args", "Tree_eq"],
     "C11": ["binary_search_interval", "check_for_value", "argsort_k", "tournament_selection", "proportional_selection", "rank_selection", "sattolo_shuffle", "random_sample", "random_weighted_sample", "Select_minmax_scale"],
     "C14": ["SelfCGA_get_new_proba", "SelfCGA_adapt", "PDPGA_adapt", "PDPGA_get_new_individ_g", "PDPGP_get_new_individ_g", "GA_get_new_individ_g", "GP_get_new_individ_g"],
     "C15": ["SHADE_generate_F_CR", "SHADE_update_u_F", "DE_greedy_replacement", "jDE_greedy_replacement", "SHADE_bookkeeping", "SHAGA_bookkeeping", "jDE_get_mutate_F", "jDE_get_mutate_CR", "SHADE_update_u_CR", "SHAGA_update_u", "Lehmer_mean_weighted", "Lehmer_mean_plain", "SHAGA_randn", "SHAGA_randc", "SHAGA_generate_MR_CR"],
